@@ -39,7 +39,9 @@ class Fault:
 
 
 class Tracer:
-    def __init__(self, watch, fault, bufsizes, name_seed=0):
+    def __init__(self, watch, fault, bufsizes, name_seed=0, exdev=False, tmpdir=None):
+        self.exdev = exdev
+        self.tmpdir = tmpdir
         self.watch = os.path.abspath(watch)
         self.fault = fault
         self.bufsizes = list(bufsizes) or [8192]
@@ -48,6 +50,7 @@ class Tracer:
         self.trace = []
         self.marks = []
         self.tracked_fds = set()
+        self.raw_fds = {}  # fileno -> relpath of traced files (for fd-level copies: sendfile)
         self.open_files = []
         self.fired = False
         self.name_seed = name_seed
@@ -90,7 +93,7 @@ class Tracer:
             if f.kind == "enospc":
                 raise OSError(errno.ENOSPC, "No space left on device (injected)", path)
             if f.kind == "eio_short":
-                if name in ("write", "os.write"):
+                if name in ("write", "os.write", "sendfile", "copy_file_range"):
                     return "short"
                 raise OSError(errno.EIO, "Input/output error (injected)", path)
             if f.kind == "eio_after":
@@ -114,6 +117,10 @@ class TracedRaw(io.RawIOBase):
         self._p = relpath
         self.name = fileio.name
         self.mode = fileio.mode
+        try:
+            tracer.raw_fds[fileio.fileno()] = relpath
+        except (OSError, ValueError):
+            pass
 
     def write(self, b):
         act = self._t.op("write", self._p, n=len(b))
@@ -157,6 +164,7 @@ class TracedRaw(io.RawIOBase):
         act = None
         try:
             if not self._f.closed:
+                self._t.raw_fds.pop(self._f.fileno(), None)
                 act = self._t.op("close", self._p)
         finally:
             # close(2) releases the descriptor even when it reports an error
@@ -259,6 +267,23 @@ def install(tracer):
                 raise OSError(errno.EIO, "Input/output error (injected, short write)")
         return R["os_write"](fd, data)
 
+    def fd_copy(name):
+        real = getattr(os, name)
+
+        def f(*a, **kw):
+            # os.sendfile(out_fd, in_fd, offset, count) / os.copy_file_range(src, dst, count, ...)
+            out_fd = a[0] if name == "sendfile" else a[1]
+            rel = t.raw_fds.get(out_fd)
+            if rel is None and out_fd in t.tracked_fds:
+                rel = "<fd>"
+            if rel is not None:
+                act = t.op(name, rel, n=a[3] if name == "sendfile" and len(a) > 3 else (a[2] if len(a) > 2 else None))
+                if act == "short":
+                    raise OSError(errno.EIO, "Input/output error (injected)")
+            return real(*a, **kw)
+
+        return f
+
     def traced_fdopen(fd, mode="r", buffering=-1, encoding=None, *args, **kwargs):
         return traced_open(fd, mode, buffering, encoding, *args, **kwargs)
 
@@ -267,7 +292,12 @@ def install(tracer):
 
         def f(src, dst, *, src_dir_fd=None, dst_dir_fd=None):
             if src_dir_fd is None and dst_dir_fd is None and (t.inside(src) or t.inside(dst)):
-                act = t.op(name, t.rel(dst), src=t.rel(src))
+                crossing = t.inside(src) != t.inside(dst)
+                act = t.op(name, t.rel(dst) if t.inside(dst) else "<outside>", src=t.rel(src) if t.inside(src) else "<outside>")
+                if crossing and t.exdev:
+                    # configuration: the watched directory is its own file system (a cache
+                    # volume), the rest (TMPDIR, ...) is another one
+                    raise OSError(errno.EXDEV, "Invalid cross-device link (simulated: other file system)", os.fspath(dst))
                 real(src, dst)
                 if act == "after":
                     raise OSError(errno.EIO, "Input/output error (injected)")
@@ -334,6 +364,10 @@ def install(tracer):
     os.mkdir = one_path("mkdir")
     os.rmdir = one_path("rmdir")
     os.truncate = one_path("truncate")
+    if hasattr(os, "sendfile"):
+        os.sendfile = fd_copy("sendfile")
+    if hasattr(os, "copy_file_range"):
+        os.copy_file_range = fd_copy("copy_file_range")
     os.scandir = traced_scandir
     os.listdir = traced_listdir
 
@@ -351,6 +385,11 @@ def install(tracer):
             return "".join(self.rng.choice("abcdefghijklmnopqrstuvwxyz0123456789_") for _ in range(8))
 
     tempfile._name_sequence = _Names(t.name_seed)
+    if t.tmpdir:
+        # a private TMPDIR per run (outside the watched directory): leftovers of killed runs
+        # must not change the names later runs get
+        tempfile.tempdir = t.tmpdir
+        os.environ["TMPDIR"] = os.environ["TMP"] = os.environ["TEMP"] = t.tmpdir
 
 
 def simulate_interpreter_exit(tracer):
@@ -370,11 +409,11 @@ def simulate_interpreter_exit(tracer):
             pass
 
 
-def run_child(scenario_fn, watch, fault, bufsizes, name_seed, report_fd):
+def run_child(scenario_fn, watch, fault, bufsizes, name_seed, report_fd, exdev=False, tmpdir=None):
     """Runs in the forked child.  Never returns."""
     status = 0
     info = {}
-    tracer = Tracer(watch, fault, bufsizes, name_seed)
+    tracer = Tracer(watch, fault, bufsizes, name_seed, exdev=exdev, tmpdir=tmpdir)
     try:
         install(tracer)
         try:
@@ -401,7 +440,7 @@ def run_child(scenario_fn, watch, fault, bufsizes, name_seed, report_fd):
     os._exit(status)
 
 
-def fork_run(scenario_fn, watch, fault, bufsizes, name_seed=0, timeout=120):
+def fork_run(scenario_fn, watch, fault, bufsizes, name_seed=0, timeout=120, exdev=False, tmpdir=None):
     """Fork, run the scenario under `fault`, return (exit_status, report or None)."""
     r, w = os.pipe()
     sys.stdout.flush()
@@ -413,7 +452,7 @@ def fork_run(scenario_fn, watch, fault, bufsizes, name_seed=0, timeout=120):
             devnull = os.open(os.devnull, os.O_WRONLY)
             os.dup2(devnull, 1)
             os.dup2(devnull, 2)
-            run_child(scenario_fn, watch, fault, bufsizes, name_seed, w)
+            run_child(scenario_fn, watch, fault, bufsizes, name_seed, w, exdev=exdev, tmpdir=tmpdir)
         finally:
             os._exit(5)
     os.close(w)
